@@ -150,6 +150,21 @@ def r1_field_agreement(r, facts):
             r.inst('family=%d decodes as %s' % (v, got), rd.where())
             if got != [want] or not decided:
                 ok = False
+            # ... and what is returned is that decoder's result as it is (only wrapped into the enum): no second look at the
+            # address that turns, say, an IPv4-mapped IPv6 address into a V4 one
+            eg = ExprBuilder(g, multi='phi')
+            rets = [eg.rvalue(s_['rv']) for l_, s_ in g.assigns() if s_['lhs']['l'] == 0 and not s_['lhs']['p'] and l_[0] in reach]
+            rets += [eg.call(t_) for l_, t_ in g.calls() if is_local(t_['dest'], 0) and l_[0] in reach and not g.blocks[l_[0]]['cleanup']]
+            flat = []
+            for e_ in rets:
+                flat += list(e_[1]) if e_[0] == 'phi' else [e_]
+            for e_ in flat:
+                x = e_
+                while (x[0] == 'call' and x[1] in ('std::convert::Into::into', 'std::convert::From::from') and len(x[2]) == 1) or \
+                        (x[0] == 'agg' and x[1].startswith('std::net::SocketAddr::') and len(x[3]) == 1):
+                    x = x[2][0] if x[0] == 'call' else x[3][0]
+                direct = x[0] == 'call' and x[1] == TRAIT + '::init' and want in (x[3] or '')
+                r.require(direct, ty + '/reader-rewrites:%s' % want, 'with family %d SocketAddr::init does not return the %s decoder\'s result as it is: %s — some addresses of that family read back as a different address' % (v, want, str(e_)[:160]), rd.where())
         r.require(ok, ty + '/reader-family', 'the AF_INET branch of SocketAddr::init does not decode as V4', rd.where())
     r.floor(6)
 
